@@ -83,6 +83,8 @@ Proof.
            destruct (obeq (Some b) (rec_bytes (store s)));
              eexists; (split; [reflexivity|]); split; cbn [o_st o_obs]; try reflexivity; exact Ro.
         -- rewrite obeq_refl. eexists; (split; [reflexivity|]); split; cbn [o_st o_obs]; [reflexivity|exact Ro].
+      * destruct (cas_holds (store s) (lastVal (cands s c))); cbn [o_store o_observed o_res]; rewrite obeq_refl;
+          (eexists; (split; [reflexivity|]); split; cbn [o_st o_obs]; [reflexivity|exact Ro]).
 Qed.
 
 Lemma orc_run_sound st0 xs : forall s o,
